@@ -7,7 +7,9 @@ from vlib import core, treegen as T, sandbox as SB, lhaenc as E
 ID = "C10"
 LEAN_MODULES = ["LhasaV.Props.C10"]
 VH_FEATURES = []
-THEOREMS = {"stripSlashes_no_lead": "full", "full_path_flat": "full", "full_path_relative": "full", "(contained: every mutating operation resolves under the root)": "FALSE on the current tree for chained symlinks (known finding); partial statements in progress"}
+THEOREMS = {"stripSlashes_no_lead": "full", "full_path_flat": "full", "full_path_relative": "full", "full_path_contained": "full: no .. component, relative (given C11's invariant; name != ..)", "dotdot_name_possible": "full: the side condition is necessary",
+            "guard_resolves_below_cwd": "full: any file system state", "deferred_link_contained": "full: mutations of a deferred link creation stay under cwd", "deferred_link_refused": "full",
+            "(contained, whole run: every mutating operation of the main phase resolves under the root)": "correspondence (canary + complete tree = model)"}
 TRUSTED = ["abstract file system LhasaV.Model.Fs (no hard links, single user, symlink resolution with a loop bound) and the extraction "
            "model LhasaV.Model.Extract; both tied to the real tool by comparing the complete resulting tree (types, modes, times, contents, "
            "link targets) after every generated run, as root and as an unprivileged user",
@@ -50,6 +52,12 @@ def alphabet(r, base):
         A.append(T.Entry("link", n, target=tg))
     for n in (b"e/evil4", b"a/evil5", b"cc/evil6", b"d/lnk/outside/evil7", b"b/evil8", b"aaaa/evil9"):
         A.append(T.Entry("file", n, data=b"THROUGH-" + n))
+    # members NAMED ".." (a file name may be ".." — only directory components are collapsed): appended last so that
+    # the indices used by corpus/C10 stay stable
+    A.append(T.Entry("file", b"..", data=b"DOTDOT"))
+    A.append(T.Entry("file", b"d/..", data=b"DOTDOT2"))
+    A.append(T.Entry("link", b"..", target=b"d"))
+    A.append(T.Entry("link", b"d/..", target=out_abs))
     return A
 
 
@@ -72,7 +80,7 @@ def gen_cases(ctx, n):
     out = []
     for i in range(n):
         k = r.randrange(1, 8)
-        idxs = [r.randrange(64) for _ in range(k)]
+        idxs = [r.randrange(128) for _ in range(k)]
         level = r.choice([0, 1, 2, 2])
         style = r.choice([0, 0, 0, 1])
         opts = r.choice([["f"], ["q"], ["q1"], ["f", "i"], ["f", "w" + b"sub".hex()], ["f", "w" + b"sub/../x".hex()]])
@@ -200,6 +208,6 @@ def signature(case, c_out, why):
 LEVEL_TEXT = ("Lean theorems: the path the tool builds for an entry is lexically inside the extraction directory (uses C11), the dangerous-link "
               "predicate is exactly 'absolute or has a .. component'; the abstract file-system model of the whole extraction is tied to the "
               "real tool by complete-tree comparison, and containment is evaluated on the real tool against a canary area (root and non-root).")
-LEVEL_NOTE = ("Partial: the file system is a model; the global containment statement is known to be false for one family of archives "
-              "(chained symlinks, see known_findings.json) and is therefore not a theorem.")
+LEVEL_NOTE = ("Partial: the file system is a model; containment is proved for path construction and for the deferred-link phase (the phase "
+              "that was defective: chained symlinks, repaired by fix e479cab), and checked by correspondence for the main phase.")
 TECHNIQUE = "Lean 4 proof (lexical containment of constructed paths, dangerous-link predicate) + file-system-model correspondence + canary observation"
